@@ -213,6 +213,10 @@ def r4_renewal_argument(ctx, f, rep):
     from . import c10, c07
     from .c09 import _Rename
     c10.r4_rejoin_or_defunct(ctx, f, _Rename(rep, 'C10-R4', 'C18-R4'))
+    # a datagram addressed to an identity the instance has superseded is dropped (only an Announce is accepted by
+    # address): otherwise a TurnUndead sent to the old identity makes the renewed instance renew and gossip again
+    from . import c17
+    c17.r3_accept_payload(ctx, f, _Rename(rep, 'C17-R3', 'C18-R4'))
     tabs = c07.tables(ctx, f, _Rename(rep, 'C07-R3', 'C18-R4'))
 
 
